@@ -6,6 +6,7 @@ import (
 	"encoding/base64"
 	"fmt"
 	"io"
+	"math/big"
 	"net"
 	"os"
 	"path/filepath"
@@ -296,6 +297,7 @@ func TestVerif_C07_Window(t *testing.T) {
 		OffsetMs  int64 // client clock - server clock
 		ServerNs  int64 // sub-second part of the server clock
 		WebSocket bool
+		AbsTs     int64 // when non-zero: the client's clock reads exactly this Unix time (extreme values)
 	}
 	_, pub := vStaticKeys()
 	one := func(c winCase) error {
@@ -303,18 +305,26 @@ func TestVerif_C07_Window(t *testing.T) {
 		berr := vk.Bubble(t, func() {
 			serverNow := time.Now().Add(time.Duration(c.ServerNs))
 			skew := time.Duration(c.OffsetMs)*time.Millisecond + time.Duration(c.ServerNs)
-			first, tr, err := c08Capture(pub, c.WebSocket, "firefox", skew)
+			clientNow := time.Now().Add(skew)
+			if c.AbsTs != 0 {
+				clientNow = time.Unix(c.AbsTs, 0)
+			}
+			first, tr, err := c08CaptureAt(pub, c.WebSocket, "firefox", func() time.Time { return clientNow })
 			if err != nil {
 				verr = fmt.Errorf("harness: %v", err)
 				return
 			}
-			clientNow := time.Now().Add(skew)
 			ts := time.Unix(clientNow.Unix(), 0) // what the client embeds
 			sta := c07FreshState(serverNow)
 			_, _, aerr := AuthFirstPacket(first, tr, sta)
 			want := ts.After(serverNow.Add(-180*time.Second)) && ts.Before(serverNow.Add(180*time.Second))
+			if c.AbsTs != 0 {
+				// extreme timestamps: decide with plain integer seconds (no time arithmetic that could saturate)
+				d := new(big.Int).Sub(big.NewInt(c.AbsTs), big.NewInt(serverNow.Unix()))
+				want = d.CmpAbs(big.NewInt(179)) <= 0
+			}
 			if (aerr == nil) != want {
-				verr = vk.ViolateSig("window", "client timestamp %d, server clock %d.%09d (difference %v): accepted=%v, but the window is strictly |difference| < 180 s", ts.Unix(), serverNow.Unix(), serverNow.Nanosecond(), ts.Sub(serverNow), aerr == nil)
+				verr = vk.ViolateSig("window", "client timestamp %d, server clock %d.%09d: accepted=%v, but the window is strictly |difference| < 180 s", clientNow.Unix(), serverNow.Unix(), serverNow.Nanosecond(), aerr == nil)
 			}
 		})
 		if verr == nil && berr != nil {
@@ -345,12 +355,18 @@ func TestVerif_C07_Window(t *testing.T) {
 				}
 			}
 		}
+		// timestamps far outside anything a sane clock produces (wrong unit, overflow edges)
+		base := int64(946684800) // the bubble's epoch, 2000-01-01
+		for _, ts := range []int64{1, -1, 1 << 31, 1 << 32, 1 << 34, 1 << 40, 1 << 56, 1 << 62, 1<<63 - 1, -(1 << 63), -(1 << 62), base * 1000, base * 1000000, base * 1000000000,
+			base + 292*365*86400, base + 293*365*86400, base + 300*365*86400, base - 293*365*86400, base - 300*365*86400, base + 1<<33, base + 9223372036, base + 9223372037, base - 9223372037} {
+			cases = append(cases, winCase{AbsTs: ts}, winCase{AbsTs: ts, WebSocket: true})
+		}
 		for i, c := range cases {
 			if err := one(c); err != nil {
 				fail(c, err)
 				return
 			}
-			nt := c.OffsetMs <= -178000 || c.OffsetMs >= 178000
+			nt := c.OffsetMs <= -178000 || c.OffsetMs >= 178000 || c.AbsTs != 0
 			if nt {
 				vk.AddDistinct(prop, sub, uint64(i), 1, "near-window-edge")
 			} else {
